@@ -48,6 +48,10 @@ def _completed_dop(d: Dict[str, Any], v: Any) -> Any:
         return completed(d["ps"], v)
     if d["k"] == "simple":
         return v
+    if d["k"] == "mux":
+        cs = list(d["cases"]) + ([d["dflt"]] if d["hasdflt"] else [])
+        c = next((x for x in cs if x["n"] == v[0]), None)
+        return (v[0], _completed_dop(c["st"], v[1]) if c is not None and c["st"]["k"] != "none" else {})
     return [_completed_dop(d["st"], x) for x in v]
 
 
@@ -64,6 +68,8 @@ def strip_unsettable(ps: List[Dict[str, Any]], vals: Any) -> Any:
             v = strip_unsettable(d["ps"], v)
         elif d.get("k") in ("sfield", "dlfield", "eopfield", "demfield") and isinstance(v, list):
             v = [strip_unsettable(d["st"]["ps"], x) for x in v]
+        elif d.get("k") == "mux" and isinstance(v, (tuple, list)):
+            v = tuple(v)
         out[p["n"]] = v
     return out
 
@@ -80,6 +86,8 @@ def has_kind(ps: List[Dict[str, Any]], kinds: Tuple[str, ...]) -> bool:
                 break
             if d["k"] in kinds:
                 return True
+            if d["k"] == "mux":
+                break
             d = d["st"]
     return False
 
@@ -113,6 +121,7 @@ def process_chunk(args: Tuple[List[Dict[str, Any]], int, int]) -> Dict[str, Any]
             results: Dict[str, Dict[str, Any]] = {}
             static = obj.get_static_bit_length()
             prefix = bytes(obj.coded_const_prefix(request_prefix=rq or b""))
+            prefix0 = bytes(obj.coded_const_prefix())     # without knowing the request
             req_names = {p.short_name for p in obj.required_parameters}
             free_names = {p.short_name for p in obj.free_parameters}
             if static is not None:
@@ -125,7 +134,8 @@ def process_chunk(args: Tuple[List[Dict[str, Any]], int, int]) -> Dict[str, Any]
                 key = json.dumps(c["vals"], sort_keys=True)
                 enc = codec.real_encode(obj, vals, rq)
                 st["encodes"] += 1
-                results[key] = {"ok": enc["pdu"] is not None, "supplied": set(vals), "vals": c["vals"]}
+                results[key] = {"ok": enc["pdu"] is not None, "supplied": set(vals), "vals": c["vals"], "pdu": enc["pdu"],
+                                "overlap": enc["overlap"]}
                 spec_ok = not c["err"]
                 st["spec_ok"] += spec_ok
                 base = {"vals": c["vals"], "spec_pdu": c["pdu"], "spec_err": c["err"],
@@ -138,6 +148,8 @@ def process_chunk(args: Tuple[List[Dict[str, Any]], int, int]) -> Dict[str, Any]
                         fail("C08", "static_length", rec, entry, {**base, "static_bits": static})
                     if not enc["overlap"] and not pdu.startswith(prefix):
                         fail("C08", "const_prefix", rec, entry, {**base, "prefix": prefix.hex()})
+                    if not enc["overlap"] and not pdu.startswith(prefix0):
+                        fail("C08", "const_prefix_without_request", rec, entry, {**base, "prefix": prefix0.hex()})
                     # ---- C01: decode(encode(v)) = v, whole PDU consumed
                     if not enc["overlap"]:
                         dec = codec.real_decode(obj, pdu)
@@ -172,7 +184,7 @@ def process_chunk(args: Tuple[List[Dict[str, Any]], int, int]) -> Dict[str, Any]
                             fail("C02", "decode_reference_pdu_raises", rec, entry, {**base, "exc": dec["exc"], "msg": dec.get("msg")})
                         elif not codec.agrees(want, dec["vals"]):
                             fail("C02", "decode_reference_pdu", rec, entry, {**base, "decoded": repr(dec["vals"])[:300], "expected": repr(want)[:300]})
-                        elif not dem:
+                        if not dec["exc"] and not dem:
                             # ---- C03: decode then re-encode reproduces the PDU
                             re_vals = strip_unsettable(ps, dec["vals"])
                             ren = codec.real_encode(obj, re_vals, rq)
@@ -220,6 +232,24 @@ def process_chunk(args: Tuple[List[Dict[str, Any]], int, int]) -> Dict[str, Any]
                         fail("C08", "required_but_omission_accepted", rec, entry, {"param": n, "vals": less})
                     if n not in req_names and not r2["ok"]:
                         fail("C08", "not_required_but_omission_fails", rec, entry, {"param": n, "vals": less})
+            # a free parameter is one whose value the caller can set: two accepted assignments that differ in nothing but
+            # the value of one top-level parameter must not produce the same PDU
+            by_rest: Dict[str, List[Dict[str, Any]]] = {}
+            for r in results.values():
+                if not r["ok"] or r["overlap"]:
+                    continue
+                for (n_, val) in r["vals"]["v"]:
+                    if n_ in free_names and val["t"] in ("int", "bytes", "text"):
+                        rest = json.dumps([x for x in r["vals"]["v"] if x[0] != n_], sort_keys=True)
+                        by_rest.setdefault(n_ + "|" + rest, []).append({"val": val, "pdu": r["pdu"]})
+            for key, lst in by_rest.items():
+                seen_pdu: Dict[bytes, Any] = {}
+                for e in lst:
+                    other = seen_pdu.setdefault(e["pdu"], e["val"])
+                    if other != e["val"]:
+                        fail("C08", "free_value_not_carried", rec, entry, {"param": key.split("|")[0], "values": [other, e["val"]],
+                                                                           "pdu": e["pdu"].hex()})
+                        break
             if req_names != set(rec["static"]["required"]) or free_names != set(rec["static"]["free"]):
                 div.append(("required_free_vs_spec", {"ps": ps, "real": [sorted(req_names), sorted(free_names)],
                                                       "spec": [rec["static"]["required"], rec["static"]["free"]]}))
@@ -377,6 +407,11 @@ def check(prop: str, tier: str, replay_path: Optional[str]) -> int:
                 c["backend"] = name
                 v.fail(clause, c)
     print(f"[{prop}] replay: {stats}", flush=True)
+    extra: Dict[str, Any] = {}
+    if prop == "C03":
+        extra["compu"] = _c03_compu(v, tier)
+    if prop == "C05":
+        extra["layers"] = _c05_layers(v, tier, seed())
     for (what, d) in divs[:5]:
         v.diverge(what, {"detail": json.loads(json.dumps(d, default=str))})
     ncases = sum(len(r["cases"]) for r in recs)
@@ -390,7 +425,7 @@ def check(prop: str, tier: str, replay_path: Optional[str]) -> int:
                    "of <= 2 (quick) / 3 (thorough) parameter shapes) and for each every assignment (all subsets of supplied "
                    "parameters x value alphabets); each case is executed on the real Request and Response objects built "
                    "from generated ODX XML; distinct = (description, assignment) pairs",
-           "exhaustive": True, "descriptions": len(recs), "cases": ncases, "replay": stats, "divergences": ndiv,
+           "exhaustive": True, "descriptions": len(recs), "cases": ncases, "replay": stats, "divergences": ndiv, **extra,
            "samples": [{"ps": [[p["k"], p["n"], p["bp"], p["bi"]] for p in recs[len(recs) // 2]["ps"]],
                         "case": recs[len(recs) // 2]["cases"][0]}]}
     return v.finish(cov, ["TLC and the CommunityModules", "my transcription of the ODX wire format in Bits.tla/CodecCore.tla "
@@ -413,3 +448,60 @@ def _recompute(case: Dict[str, Any], wd: Any, wrong: bool = False) -> Dict[str, 
         raise tlc.MachineryError(f"replay: TLC did not evaluate the description: {res.errors[:3]} {res.stdout[-1500:]}")
     del ps_json
     return recs[0]
+
+
+def _c03_compu(v: Any, tier: str) -> Dict[str, Any]:
+    """C03, second sentence: internal -> physical -> internal is the identity for injective compu methods (Compu.tla)."""
+    from . import compu
+    res, recs = compu.run_model(tier)
+    reals = compu.build([r["cm"] for r in recs])
+    n = inj = 0
+    for rec, real in zip(recs, reals):
+        inj += bool(rec["injective"])
+        seen = set()
+        for (clause, detail) in compu.compare(rec["cm"], rec, real):
+            if clause in ("i2p2i", "image_valid") and clause not in seen:
+                seen.add(clause)
+                n += 1
+                v.fail("compu_" + clause, {"machine": "Compu", **compu.shape(rec["cm"]), "detail": detail, "ps": [], "rq": [],
+                                           "record": {"cm": rec["cm"]}})
+    print(f"[C03] compu round trip: {len(recs)} configurations, {inj} injective, {n} failures", flush=True)
+    return {"configurations": len(recs), "injective": inj, "states": res.distinct}
+
+
+def _c05_layers(v: Any, tier: str, seed_: int) -> Dict[str, Any]:
+    """C05 on whole layers: generated dispatch layers and the shipped somersault database, arbitrary byte strings."""
+    import odxtools
+    from odxtools.exceptions import DecodeError
+
+    from .checks import c06
+    from .common import REPO
+    rng = random.Random(seed_ + 5)
+    layers = [("gen:" + "+".join(names) + ("/" + g if g else ""), c06.build_layer(names, [g] if g else []))
+              for names in (["Sa", "Sb"], ["Sb", "Sc", "Sd"], ["Se", "Sf"], ["Sb", "Sg"]) for g in ("", "GNR1", "GNR2")]
+    db = odxtools.load_pdx_file(str(REPO / "examples" / "somersault.pdx"))
+    layers += [("somersault:" + dl.short_name, dl) for dl in db.diag_layers]
+    inputs = [b""] + [bytes([b]) for b in (0x00, 0x10, 0x22, 0x7F, 0xFF)]
+    n = 400 if tier == "quick" else 4000
+    for _ in range(n):
+        ln = rng.choice([1, 2, 2, 3, 3, 4, 5, 8, 16, 64])
+        first = rng.choice([0x10, 0x22, 0x31, 0x62, 0x7F, 0xBA, 0xFA, 0xBD, 0x3E, rng.randrange(256)])
+        inputs.append(bytes([first] + [rng.choice([0, 1, 0x7F, 0x80, 0xFE, 0xFF, rng.randrange(256)]) for _ in range(ln - 1)]))
+    count = 0
+    for (lname, layer) in layers:
+        reqs = [i for i in inputs[:40]]
+        for m in inputs:
+            for mode in ("decode", "decode_response"):
+                count += 1
+                try:
+                    if mode == "decode":
+                        layer.decode(m)
+                    else:
+                        layer.decode_response(m, rng.choice(reqs))
+                except DecodeError:
+                    pass
+                except Exception as e:  # noqa: BLE001
+                    v.fail("layer_foreign_exception", {"machine": "Codec", "layer": lname, "input": m.hex(), "mode": mode,
+                                                       "exc": type(e).__name__, "msg": str(e)[:120], "ps": [], "rq": [],
+                                                       "empty_input": len(m) == 0})
+    return {"layers": len(layers), "layer_decodes": count}
